@@ -537,6 +537,20 @@ class Engine(ExprMixin, StmtMixin):
             result = st.alloc(result)
         return [(st, result)]
 
+    def make_macro_bound(self, macro, st0):
+        """a macro usable from library handlers (evaluated against the pre-state it was bound in)"""
+        params, body = self.defs[macro]
+
+        def fn(args, kwargs, st, eng):
+            env = dict(zip(params, args))
+            saved = eng.spec_depth
+            eng.spec_depth += 1
+            try:
+                return [(st, eng.spec_val(body, st, env))]
+            finally:
+                eng.spec_depth = saved
+        return fn
+
     def induction(self, st, name, var, lo, hi, prop, env, node):
         """mathematical induction over lo <= var <= hi: base and step are obligations, the universally
         quantified conclusion is then assumed"""
@@ -587,7 +601,8 @@ class Engine(ExprMixin, StmtMixin):
         """generate all obligations of one function under its sidecar contract"""
         target = c["target"]
         fi = self.locate(target)
-        self.cur_fi, self.cur_contract, self.cur_func, self.top_func = fi, c, target, c.get("name", target)
+        self.cur_fi, self.cur_contract, self.top_func = fi, c, c.get("name", target)
+        self.cur_func = self.top_func
         self.defs = dict(c.get("defs", {}))
         self.loop_env = []
         self.depth = 0
@@ -604,7 +619,13 @@ class Engine(ExprMixin, StmtMixin):
         for name, T_ in c.get("consts", {}).items():
             consts[name] = self.make_value(T_, name, st) if isinstance(T_, T) else None
         for name, T_ in c.get("consts", {}).items():
-            if consts[name] is None:
+            if consts[name] is None and T_ in self.defs and self.defs[T_][0]:
+                consts[name] = "__macro__"
+        self._late_consts = [n for n, v in consts.items() if v == "__macro__"]
+        for n in self._late_consts:
+            consts[n] = None
+        for name, T_ in c.get("consts", {}).items():
+            if consts[name] is None and name not in self._late_consts:
                 consts[name] = self.spec_val(T_, st, {})
         for name, (argTs, resT) in c.get("funcs", {}).items():
             def mk(name=name, argTs=argTs, resT=resT):
@@ -618,7 +639,8 @@ class Engine(ExprMixin, StmtMixin):
         pnames = [p.arg for p in a.posonlyargs + a.args + a.kwonlyargs]
         ptypes = dict(c.get("params", {}))
         if fi.cls and pnames and pnames[0] == "self":
-            cls_id = f"{fi.module.relpath}::{c.get('self_class', fi.cls)}"
+            sc = c.get("self_class", fi.cls)
+            cls_id = sc if "::" in sc else f"{fi.module.relpath}::{sc}"
             st.locals["self"] = self.make_value(TObj(cls_id, c.get("self", {})), "self", st)
         for p in pnames:
             if p == "self" and fi.cls:
@@ -653,6 +675,8 @@ class Engine(ExprMixin, StmtMixin):
         for e in c.get("axioms", []):
             st.assume(self.spec_bool(e, st, {}))
             self.used_trusted.add(f"definitional-axiom:{e}")
+        for n in getattr(self, "_late_consts", []):
+            consts[n] = VFunc(n, self.make_macro_bound(c["consts"][n], st))
         for e in c.get("requires", []):
             st.assume(self.spec_bool(e, st, {}))
         for name, e in c.get("let", {}).items():
